@@ -122,7 +122,7 @@ META = dict(
     technique="TLA+ declarative model of RFC 6716 framing; TLC exhaustive over a header grid; TLC trace validation of recorded parser calls",
     level_text=("TLC checks the framing theorems (frames inside the input, limits, prefix property of self-delimited framing, "
                 "standard/self-delimited correspondence, helper agreement) for every case of a header grid, and judges every recorded "
-                "call of the real parser and header helpers (grid sample, exact-fit structured packets, fuzz; both framings) against "
+                "call of the real parser and header helpers (grid sample, exact-fit structured packets, fuzz, and inputs of 64 KiB to 8 MiB whose implicit frame sizes wrap in 16 bits; both framings) against "
                 "Framing!Parse: accept iff the model accepts, and every out-parameter equal."),
     level_note=("Trusted: TLC, the Json module, my reading of RFC 6716 section 3/Appendix B (no RFC text offline). The implementation is "
                 "exercised on a sample of the byte-string space, not all of it; ASan/UBSan observe memory safety on those cases only."),
